@@ -70,8 +70,9 @@ def canon(b):
 
 
 def _other_backend(b):
-    """a *different* backend whose scoped keys the tool knows about"""
-    return "nanobind" if canon(b) == "kotlin" else "kotlin"
+    """a *different* backend whose scoped keys the tool knows about; where another backend's name is a prefix of this one's (or
+    the other way round) it is that one: `c.key` must not reach cpp, `cpp.key` must not reach c"""
+    return {"kotlin": "nanobind", "c": "cpp", "cpp": "c"}.get(canon(b), "kotlin")
 
 
 # ---------------------------------------------------------------------------------------------
